@@ -630,6 +630,11 @@ def gen_prepared_reuse(rng):
 
 def gen_C01(rng, n):
     out = []
+    # boundary scalar pairs, each entry point once per round-robin: zero exponents / identity operands
+    combos = [(0, 1), (1, 0), (0, 0), (1, 1), (r - 1, 1), (2, r - 1), (r - 1, r - 1), (0, r - 1)]
+    for k, (a, b) in enumerate(combos):
+        e = ['pairing', 'fast', 'prep'][k % 3]
+        out.append((f'law.bilin:{e}:boundary', f'law.bilin@{e} {h32(a)} {h32(b)}'))
     for _ in range(n):
         ls, a = scalar_value(rng)
         lt, b = scalar_value(rng)
